@@ -2,7 +2,8 @@
 """Write /verif/MANIFEST.json from tools/props.json (one entry per property: claimed or not_applicable)."""
 import json, os
 ROOT = os.path.dirname(os.path.dirname(os.path.abspath(__file__)))
-props = json.load(open(os.path.join(ROOT, "tools", "props.json")))
+import glob
+props = {os.path.basename(p)[:-5]: json.load(open(p)) for p in glob.glob(os.path.join(ROOT, "tools", "props.d", "C*.json"))}
 ids = [json.loads(l)["id"] for l in open(os.path.join(ROOT, "properties.jsonl"))]
 checks, na = [], []
 for pid in ids:
